@@ -103,7 +103,46 @@ func mixed(c *fw.Ctx) {
 			panic("harness: mixed universe senders not in ascending address order")
 		}
 	}
-	n, maxLen := u.N(), mixedMaxLen(c.Tier)
+	enumOrders(c, env, mixedMaxLen(c.Tier), "mixed", func(rpc, gate int) bool { return rpc > 0 && gate > 0 })
+	edge(c)
+}
+
+// edgeUniverse: the nonce dimension at its boundaries.  One rpc sender with state nonce e
+// (state 0) / e+1 (state 1); its transactions: exp (e), next (e+1), and nonces e+2^63-1,
+// e+2^63, e+2^63+7 (uint64 arithmetic, wrapping for e = 2^63), MaxUint64-1 and MaxUint64.
+func edgeUniverse(e uint64) *pool.Universe {
+	const half = uint64(1) << 63
+	specs := []pool.TxSpec{
+		{Name: "exp", Sender: 0, Off: 0, Data: "e"},
+		{Name: "next", Sender: 0, Off: 1, Data: "n"},
+		{Name: "e+2^63-1", Sender: 0, Off: half - 1, Data: "a"},
+		{Name: "e+2^63", Sender: 0, Off: half, Data: "b"},
+		{Name: "e+2^63+7", Sender: 0, Off: half + 7, Data: "c"},
+		{Name: "max-1", Sender: 0, Off: ^uint64(0) - 1 - e, Data: "d"},
+		{Name: "max", Sender: 0, Off: ^uint64(0) - e, Data: "f"},
+	}
+	return pool.NewUniverse(fmt.Sprintf("edge:%d", e), 1, []uint64{e}, [][]uint64{{e}, {e + 1}}, specs)
+}
+
+var edgeStates = []uint64{0, 5, 1 << 63}
+
+// edge (part "a-edge"): every set of <= 3 (quick) / <= 4 (thorough) of those transactions in
+// every insertion order, packed against both states, for state nonces 0, 5 and 2^63.
+func edge(c *fw.Ctx) {
+	maxLen := 3
+	if c.Thorough() {
+		maxLen = 4
+	}
+	for _, e := range edgeStates {
+		enumOrders(c, pool.NewEnv(edgeUniverse(e)), maxLen, "edge", func(rpc, gate int) bool { return rpc > 1 })
+	}
+}
+
+// enumOrders: every subset of at most maxLen transactions of the universe, in every insertion
+// order, each on a fresh pool, then pack against state 0 and state 1, full oracle after every step.
+func enumOrders(c *fw.Ctx, env *pool.Env, maxLen int, label string, nontrivial func(rpc, gate int) bool) {
+	u := env.U
+	n := u.N()
 	setIdx := int64(0)
 	for mask := 1; mask < 1<<n; mask++ {
 		sz := bits.OnesCount(uint(mask))
@@ -115,7 +154,7 @@ func mixed(c *fw.Ctx) {
 			continue
 		}
 		if c.Expired() {
-			c.Cap("time cap in the mixed-batch enumeration")
+			c.Cap("time cap in the " + label + " enumeration")
 			return
 		}
 		var members []int
@@ -130,7 +169,7 @@ func mixed(c *fw.Ctx) {
 				}
 			}
 		}
-		c.Count("mixed_sets", 1)
+		c.Count(label+"_sets", 1)
 		var firstOps []pool.Op
 		var first [][]int
 		stop, diffSeen, nrep := false, false, 0
@@ -146,8 +185,8 @@ func mixed(c *fw.Ctx) {
 				batches, at, fs := mixedRun(env, ops)
 				c.Eval(1)
 				c.Trace(1)
-				c.Count("mixed_orders", 1)
-				if rpc > 0 && gate > 0 {
+				c.Count(label+"_orders", 1)
+				if nontrivial(rpc, gate) {
 					c.NontrivialN(1)
 				}
 				if len(fs) > 0 {
@@ -155,24 +194,24 @@ func mixed(c *fw.Ctx) {
 					for _, f := range fs {
 						if !seen[f.Sig] {
 							seen[f.Sig] = true
-							c.Count("mixed_orders_failing:"+f.Sig, 1)
+							c.Count(label+"_orders_failing:"+f.Sig, 1)
 						}
 					}
 					if nrep < 2 { // the framework keeps 3 per signature anyway; every failing order is counted
 						nrep++
-						report(c, env, ops[:at+1], fs, "a-mixed", false)
+						report(c, env, ops[:at+1], fs, "a-"+label, false)
 					}
 					return
 				}
 				if first == nil {
 					first, firstOps = batches, ops
-					c.Outcome(fmt.Sprintf("mixed:rpc=%d/%d:gate=%d", rpc-countSkipped(u, members, batches[0]), rpc, gate))
+					c.Outcome(fmt.Sprintf(label+":rpc=%d/%d:gate=%d", rpc-countSkipped(u, members, batches[0]), rpc, gate))
 					return
 				}
 				if d := diffFinding(u, firstOps, ops, first, batches); d != nil {
 					// observation only: the property does not state that the packed order is independent of
 					// the insertion order, so this is counted in the evidence and never reported as a violation
-					c.Count("mixed_observed:pack-order-depends-on-insertion", 1)
+					c.Count(label+"_observed:pack-order-depends-on-insertion", 1)
 					_ = diffSeen
 				}
 				return
